@@ -39,6 +39,10 @@ KEY_D8 = "c07:generate_mpo-zero-onsite-product"
 # its own stratum; reported as an oracle failure (KNOWN-FINDING) once the key is registered in known_findings.json, until
 # then counted and described in the evidence notes without raising an alarm.
 KEY_CPLX = "c07:generate_mpo-complex-operator-real-amplitudes"
+# candidate defect found while widening the state space to re-gauged states: mps.rdm ignores psi.factor (the norm kept aside by
+# canonize_/truncate_(normalize=False)), whereas to_tensor(), vdot and measure_* include it.  Same gating as KEY_CPLX: own
+# stratum (psi.factor != 1), counted and described in the evidence notes, an alarm only once the key is registered.
+KEY_RDM_FACTOR = "c07:rdm-ignores-psi-factor"
 
 MODULI = {"dense": [], "Z2": [2], "Z3": [3], "U1": [0], "U1xU1": [0, 0], "U1xU1xZ2": [0, 0, 2]}
 FAMILY_SPECS = [("Spin12", ["dense", "Z2", "U1"]), ("Spin1", ["dense", "Z3", "U1"]),
@@ -832,7 +836,14 @@ def check_rdm_case(ctx, case):
         if err <= 1e-9 * scale:
             ctx.count("rdm:factor!=1:ok")
             return True
-        ctx.count("rdm:factor!=1:mismatch")
+        f2 = float(abs(psi.factor)) ** 2
+        if float(np.abs(R * f2 - ref).max()) > 1e-9 * scale:
+            # not explained by a dropped psi.factor either: wrong under every reading of the normalisation
+            ctx.fail("oracle", "c07:rdm", f"rdm(psi, {sites}) differs from the reduced density matrix of the dense state by {err:.3g}, with or "
+                     f"without psi.factor ({fam.key}, N={N}, gauge {gauge_tag(gz) if gz else 'raw'})", case=dict(case), concrete=True)
+            ctx.count("rdm:FAIL")
+            return False
+        ctx.count("rdm:factor!=1:factor-ignored")
         what = (f"rdm(psi, {sites}) differs from the reduced density matrix of the dense state (psi.to_tensor(), which includes "
                 f"psi.factor = {float(abs(psi.factor)):.6g}) by {err:.3g}; measure_1site/measure_nsite on the same state do include "
                 f"the factor ({fam.key}, N={N}, gauge {gauge_tag(gz) if gz else 'raw'})")
@@ -853,27 +864,12 @@ def check_rdm_case(ctx, case):
     return True
 
 
-def check_sample_case(ctx, case):
-    import random
+def sample_projectors(fam, mode):
+    """complete set of local projectors of one kind; returns (projectors, groups), groups[p] = basis indices covered by p"""
     import yastn
-    import yastn.tn.mps as mps
-    fam = fam_by_key(case["fam"])
-    N = case["N"]
-    rng = random.Random(case["seed"])
-    adm = fam.admissible(N)
-    psi = int_mps(fam, N, rng.choice(adm), rng, cplx=case.get("cplx", False))
-    if psi is None:
-        return True
-    v = mps_dense(fam, psi, N)
-    nrm = float(np.vdot(v, v).real)
-    if nrm == 0:
-        ctx.count("sample:zero-state")
-        return True
-    born = np.abs(v) ** 2 / nrm
     sp, cfg = fam.space, fam.cfg
     ts = [tuple(t) if isinstance(t, (tuple, list)) else (t,) for t in sp.t]
-    mode = case["mode"]
-    projs, groups = [], []          # groups[p] = basis indices covered by projector p
+    projs, groups = [], []
     off = 0
     for t, D in zip(ts, sp.D):
         if mode == "sector":
@@ -894,26 +890,107 @@ def check_sample_case(ctx, case):
                 projs.append(P)
                 groups.append([off + k])
         off += D
+    return projs, groups
+
+
+def check_sample_case(ctx, case):
+    """case: {kind:'sample', fam, N, seed, mode, cplx, [gauge=[name, keepnorm]], [pform=list|dict|keyed|per-site], [number]}"""
+    import random
+    import yastn.tn.mps as mps
+    fam = fam_by_key(case["fam"])
+    N = case["N"]
+    rng = random.Random(case["seed"])
+    adm = fam.admissible(N)
+    psi = int_mps(fam, N, rng.choice(adm), rng, cplx=case.get("cplx", False))
+    if psi is None:
+        return True
+    v = mps_dense(fam, psi, N)
+    nrm = float(np.vdot(v, v).real)
+    if nrm == 0:
+        ctx.count("sample:zero-state")
+        return True
+    mode = case["mode"]
+    pform = case.get("pform")
+    if pform is None:                                   # cases recorded before the projector forms were widened
+        pform = "list" if rng.random() < 0.5 else "dict"
+    gz = case.get("gauge")
+    if gz is not None:
+        try:
+            apply_gauge(psi, gz, rng)
+        except Exception as e:  # noqa: BLE001 - preparation (canonize_/truncate_) is outside C07: recorded, not judged
+            ctx.count(f"gauge:prep-raised:{type(e).__name__}")
+            return True
+        ctx.count(f"gauge:sample:{gz[0]}")
+        v = mps_dense(fam, psi, N)                      # reference = dense vector of the state actually handed to sample()
+        nrm = float(np.vdot(v, v).real)
+        if not np.isfinite(nrm) or nrm == 0:
+            return True
+    born = np.abs(v) ** 2 / nrm
+    # projector argument in every documented form; site_groups[n][key] = basis indices covered by the projector `key` at site n
+    if pform == "per-site":
+        arg, site_groups = {}, []
+        for n in range(N):
+            pr, gr = sample_projectors(fam, rng.choice(["vector", "matrix", "sector"]))
+            if rng.random() < 0.5:
+                arg[n] = list(pr)
+                site_groups.append(dict(enumerate(gr)))
+            else:
+                keys = rng.sample(range(-3, 40), len(pr))
+                order = list(range(len(pr)))
+                rng.shuffle(order)
+                arg[n] = {keys[i]: pr[i] for i in order}
+                site_groups.append({keys[i]: gr[i] for i in order})
+    else:
+        pr, gr = sample_projectors(fam, mode)
+        if pform == "list":
+            arg, g = list(pr), dict(enumerate(gr))
+        elif pform == "dict":
+            arg, g = dict(enumerate(pr)), dict(enumerate(gr))
+        else:                                           # "keyed": arbitrary integer keys, arbitrary insertion order
+            keys = rng.sample(range(-3, 40), len(pr))
+            order = list(range(len(pr)))
+            rng.shuffle(order)
+            arg = {keys[i]: pr[i] for i in order}
+            g = {keys[i]: gr[i] for i in order}
+        site_groups = [g] * N
+    fam.cfg.backend.random_seed(case["seed"] % (2 ** 31))   # sample() draws from the backend's generator
     np.random.seed(case["seed"] % (2 ** 31))
-    number = 6
+    number = int(case.get("number", 6))
+    tag = f"({fam.key}, N={N}, projectors={mode if pform != 'per-site' else 'mixed'}/{pform}, gauge {gauge_tag(gz) if gz else 'raw'})"
     try:
-        samples, probs = mps.sample(psi, projs if rng.random() < 0.5 else dict(enumerate(projs)), number=number, return_probabilities=True)
+        samples, probs = mps.sample(psi, arg, number=number, return_probabilities=True)
     except Exception as e:  # noqa: BLE001
-        ctx.fail("oracle", "c07:sample:raised", f"sample raised {type(e).__name__}: {str(e)[:150]} ({fam.key}, N={N}, mode={mode})",
+        ctx.fail("oracle", "c07:sample:raised", f"sample raised {type(e).__name__}: {str(e)[:150]} {tag}",
                  case=dict(case), concrete=True)
         return False
+    samples = np.asarray(samples)
+    if samples.shape != (number, N) or np.asarray(probs).shape != (number,):
+        ctx.fail("oracle", "c07:sample-shape", f"sample returned arrays of shapes {samples.shape}, {np.asarray(probs).shape}, "
+                 f"documented (number, N) = {(number, N)} and (number,) {tag}", case=dict(case), concrete=True)
+        return False
     B = born.reshape((fam.d,) * N)
-    for smp, pr in zip(np.asarray(samples).tolist(), np.asarray(probs).tolist()):
+    for smp, pr_ in zip(samples.tolist(), np.asarray(probs).tolist()):
+        if any(p not in site_groups[n] for n, p in enumerate(smp)):
+            ctx.fail("oracle", "c07:sample-keys", f"sample returned {smp}: not keys of the given projectors {tag}",
+                     case=dict(case), concrete=True)
+            ctx.count("sample:FAIL")
+            return False
         sub = B
         for n, p in enumerate(smp):
-            sub = np.take(sub, groups[p], axis=n)
+            sub = np.take(sub, site_groups[n][p], axis=n)
         expd = float(sub.sum())
-        if not (abs(pr - expd) <= 1e-9):
-            ctx.fail("oracle", "c07:sample-probabilities", f"sample probability {pr} of configuration {smp} differs from the Born "
-                     f"probability {expd} ({fam.key}, N={N}, projectors={mode})", case=dict(case), concrete=True)
+        if not (abs(pr_ - expd) <= 1e-9):
+            ctx.fail("oracle", "c07:sample-probabilities", f"sample probability {pr_} of configuration {smp} differs from the Born "
+                     f"probability {expd} {tag}", case=dict(case), concrete=True)
+            ctx.count("sample:FAIL")
+            return False
+        if not expd > 1e-12:
+            ctx.fail("oracle", "c07:sample-support", f"sample drew configuration {smp} whose Born probability is {expd} {tag}",
+                     case=dict(case), concrete=True)
             ctx.count("sample:FAIL")
             return False
     ctx.count("sample:ok")
+    ctx.count(f"sample:pform={pform}")
     return True
 
 
@@ -1086,7 +1163,11 @@ def run(ctx):
                 "2..7 thorough subject to d^N <= 256/1100) -> generate_mpo dense vs NumPy JW sum; the same through the LaTeX Generator; "
                 "integer-data MPS of random admissible total charges (bra charge = ket charge + operator charges) -> measure_1site, "
                 "measure_2site (30 pattern strings + single/list/dict forms), measure_nsite (repeated sites, any order), rdm (any site "
-                "order, complex data), sample probabilities (vector / matrix / sector projectors). Non-trivial = at least one charged "
+                "order, complex data), sample probabilities (vector / matrix / sector projectors given as list / dict / dict with arbitrary "
+                "integer keys / per-site dict; 1-9 samples; drawn configurations must have non-zero Born probability). Every state "
+                "entering a measurement is used as generated or RE-GAUGED through public methods (canonize_ to first / last / both "
+                "orders, mixed canonical around a random site, SVD sweeps truncate_ to last / first, norm dropped or kept in "
+                "psi.factor); the dense reference is recomputed from the re-gauged MPS. Non-trivial = at least one charged "
                 "or non-diagonal operator or a repeated/unordered site tuple; distinct by full case content. Stratum 'zero-onsite' "
                 "(finding D8) is generated and reported separately.")
     ctx.assumptions.append("dense matrices are read in the product basis of sector-ordered local bases through Tensor.to_numpy(legs=...) (C01)")
@@ -1150,14 +1231,14 @@ def run(ctx):
             # 1-site
             nm = rng.choice(charged) if charged and rng.random() < 0.6 else rng.choice(pool)
             case = {"kind": "measure", "which": "1site", "fam": fam.key, "N": N, "names": [nm], "seed": rng.randrange(2 ** 40),
-                    "cplx": rng.random() < 0.3}
+                    "cplx": rng.random() < 0.3, "gauge": [rand_gauge(rng), rand_gauge(rng)]}
             ctx.case(case)
             guarded(ctx, check_measure_case, case)
             # 2-site: every pattern
             for _2 in range(2 if quick else 3):
                 names = [rng.choice(charged) if charged and rng.random() < 0.7 else rng.choice(pool) for _ in range(2)]
                 case = {"kind": "measure", "which": "2site", "fam": fam.key, "N": N, "names": names, "seed": rng.randrange(2 ** 40),
-                        "patterns": list(PATTERNS), "cplx": rng.random() < 0.3}
+                        "patterns": list(PATTERNS), "cplx": rng.random() < 0.3, "gauge": [rand_gauge(rng), rand_gauge(rng)]}
                 ctx.case(case)
                 guarded(ctx, check_measure_case, case)
             # n-site
@@ -1168,7 +1249,7 @@ def run(ctx):
                 if onsite_zero(fam, sites, names):
                     ctx.count("measure:nsite:zero-onsite-product")
                 case = {"kind": "measure", "which": "nsite", "fam": fam.key, "N": N, "names": names, "sites": sites,
-                        "seed": rng.randrange(2 ** 40), "cplx": rng.random() < 0.3}
+                        "seed": rng.randrange(2 ** 40), "cplx": rng.random() < 0.3, "gauge": [rand_gauge(rng), rand_gauge(rng)]}
                 ctx.case(case)
                 guarded(ctx, check_measure_case, case)
             # rdm
@@ -1176,14 +1257,19 @@ def run(ctx):
             k = rng.randint(1, min(kmax, N))
             Nr = N if fam.d ** N <= 81 else max(2, N - 1)
             k = min(k, Nr)
-            case = {"kind": "rdm", "fam": fam.key, "N": Nr, "sites": rng.sample(range(Nr), k), "seed": rng.randrange(2 ** 40)}
-            ctx.case(case)
-            guarded(ctx, check_rdm_case, case)
+            for gz in (["raw", False], rand_gauge(rng, p_raw=0.0)):
+                case = {"kind": "rdm", "fam": fam.key, "N": Nr, "sites": rng.sample(range(Nr), k), "seed": rng.randrange(2 ** 40),
+                        "gauge": gz}
+                ctx.case(case)
+                guarded(ctx, check_rdm_case, case)
             # sample
-            case = {"kind": "sample", "fam": fam.key, "N": N, "mode": rng.choice(["vector", "matrix", "sector"]),
-                    "seed": rng.randrange(2 ** 40), "cplx": rng.random() < 0.3}
-            ctx.case(case)
-            guarded(ctx, check_sample_case, case)
+            # sample: once on the state as generated, then on re-gauged states (canonical to first / last, mixed, SVD sweeps)
+            for gz in [["raw", False]] + [rand_gauge(rng, p_raw=0.0) for _s in range(2 if quick else 4)]:
+                case = {"kind": "sample", "fam": fam.key, "N": N, "mode": rng.choice(["vector", "matrix", "sector"]),
+                        "seed": rng.randrange(2 ** 40), "cplx": rng.random() < 0.3, "gauge": gz,
+                        "pform": rng.choice(["list", "dict", "keyed", "per-site"]), "number": rng.choice([1, 4, 6, 9])}
+                ctx.case(case)
+                guarded(ctx, check_sample_case, case)
     ctx.extra["run_wall_s"] = round(time.time() - t_start, 1)
 
 
